@@ -427,7 +427,7 @@ func runNativeCases(lr *loadResult, pkgRel string, cases []nativeCase, race bool
 	out, err := cmd.CombinedOutput()
 	ob, rerr := os.ReadFile(outFile)
 	if rerr != nil {
-		return nil, fmt.Errorf("native run failed: %v\n%s", err, tail(string(out), 2000))
+		return nil, fmt.Errorf("native run failed: %v\n%s\n...\n%s", err, head(string(out), 1500), tail(string(out), 2000))
 	}
 	var outs []*nativeOutcome
 	if err := json.Unmarshal(ob, &outs); err != nil {
@@ -438,6 +438,13 @@ func runNativeCases(lr *loadResult, pkgRel string, cases []nativeCase, race bool
 		m[o.ID] = o
 	}
 	return m, nil
+}
+
+func head(s string, n int) string {
+	if len(s) > n {
+		return s[:n]
+	}
+	return s
 }
 
 func tail(s string, n int) string {
@@ -557,6 +564,33 @@ func runNative(lr *loadResult, reports []*harnessReport, tier string, seed int64
 			}
 		} else {
 			outs, err = runNativeCases(lr, pkg, cases, false)
+		}
+		if err != nil && !raceMode {
+			// the batch died (e.g. a non-terminating recursion overflowed the stack of the test
+			// process): run the cases one by one
+			batchErr := err
+			outs = map[string]*nativeOutcome{}
+			for _, c := range cases {
+				if refs[c.ID].kind == "diff" && len(cases) > 40 {
+					continue
+				}
+				o1, e1 := runNativeCases(lr, pkg, []nativeCase{c}, false)
+				if e1 == nil {
+					for k, v := range o1 {
+						outs[k] = v
+					}
+					continue
+				}
+				r := refs[c.ID]
+				if r.kind != "diff" && strings.Contains(r.v.Clause, "terminates") &&
+					(strings.Contains(e1.Error(), "stack overflow") || strings.Contains(e1.Error(), "goroutine stack exceeds")) {
+					outs[c.ID] = &nativeOutcome{ID: c.ID, Outcome: "fatal: stack overflow", Failed: []string{r.v.Clause}}
+				}
+			}
+			err = nil
+			if len(outs) == 0 {
+				err = batchErr
+			}
 		}
 		if err != nil {
 			for _, rep := range reps {
